@@ -192,7 +192,7 @@ func (e *renv) install(c *ibctesting.TestChain) {
 		ctx.KVStore(mk).Set([]byte(fmt.Sprintf("recv2/%s/%d/%s", dst, seq, pd.DestinationPort)), pd.Value)
 		k := wroteKeyV2(dst, seq)
 		if bytes.HasPrefix(pd.Value, []byte("fail")) {
-			e.pending[k] = [][]byte{channeltypesv2.ErrorAcknowledgement[:]}
+			e.pending[k] = [][]byte{append([]byte{}, channeltypesv2.ErrorAcknowledgement[:]...)}
 			return channeltypesv2.RecvPacketResult{Status: channeltypesv2.PacketStatus_Failure}
 		}
 		a := append([]byte("ack2:"+pd.DestinationPort+":"), pd.Value...)
